@@ -36,12 +36,12 @@ P = {
   note="Trusted: as C01; class membership via the verif hook.",
   tech=TECH + " (tie H incl. exhaustive chains); exact-arithmetic search for the nesting clause", ref="DESIGN.md 6 C18"),
  "C05": dict(
-  text="Full at model level for all polygons inside the grid, valid or not: splitRing is total for any flags, returns repeat-free rings when the flags contain every repeated vertex, hit accounting flags exactly the centres recorded twice, shell CCW-or-zero / holes CW-or-zero (exactly opposite with reverse), every ring >= 3 vertices without keep, collapsed parts last as 1-2 vertex rings with keep, never an empty list, keep policy prefix theorem; routing premises discharged from C02. One explicit premise remains (kmp_short_nodup: a spike-removal output of < 3 vertices is repeat-free), proved only for bounded chains.",
+  text="Full at model level for all polygons inside the grid, valid or not: splitRing is total for any flags, returns repeat-free rings when the flags contain every repeated vertex, hit accounting flags exactly the centres recorded twice, shell CCW-or-zero / holes CW-or-zero (exactly opposite with reverse), every ring >= 3 vertices without keep, collapsed parts last as 1-2 vertex rings with keep, never an empty list, keep policy prefix theorem; routing premises discharged from C02. 'Visits no vertex twice' is PARTIAL WITH A REFUTATION: every returned ring is repeat-free (hence last <> first, no equal neighbours) or is a two-vertex line [p; p] (C05_rings_well_formed_partial, no premise); the exception is real: the former premise kmp_short_nodup (a spike-removal output of < 3 vertices is repeat-free) is false (C05_kmp_short_nodup_refuted: a 75-vertex chain over 3 centres without equal cyclic neighbours is reduced to [p; p]; C05_rings_well_formed_refuted: replayed, SnapPolygon with keep-points-and-lines returns the line [[8.5 8.5] [8.5 8.5]] for an in-grid ring); the conditional theorems C05_rings_well_formed(_routing_discharged) are kept but their premise is refuted.",
   note="Trusted: as C01; orientation is the exact integer sign (float sign agrees except on zero-area rings, exempt in the property).",
   tech=TECH + " (tie H on ring structure for all four flag sets, real and synthetic grids)", ref="DESIGN.md 6 C05"),
  "C06": dict(
   text="Partial, with a machine-checked refutation. Theorems for all inputs: kmpTable/kmpSearch/kmpSearchAll never index out of range and terminate (independent of the non-standard shift), splitRing is total, kmpDeduplicate never exhausts its fuel (no hang at model level) and can fail only through ring[-1] (exactly when matches=1 and reverse matches=0, not known reachable) or RemoveSequences' slice bounds; total on chains without step back and on the C18 class; bounded totality by enumeration inside Coq. C06_kmp_total_refuted: a 33-vertex ring over 3 centres makes it fail with SliceBounds — replayed: the real SnapPolygon panics (known finding F13). Runtime behaviour (time, memory, aliasing) is measured by the harness only.",
-  note="Trusted: as C01, except that kmpTable/kmpSearch/kmpSearchAll are no longer a hand transcription: regenerated from snap.go on every run (gen/KmpGen.v, loops as fuelled Fixpoints over the assigned variables, index/slice panics as Err values) and proved equal to the model on all inputs and outcomes (C06_source_tie_kmp_search; int as exact Z, [2]float64 as points); time/memory/stack are runtime behaviour the model cannot exhibit. Known findings F11 (level > 32) and F13 attributed by mechanism.",
+  note="Trusted: as C01, except that kmpTable/kmpSearch/kmpSearchAll are no longer a hand transcription: regenerated from snap.go on every run (gen/KmpGen.v, loops as fuelled Fixpoints over the assigned variables, index/slice panics as Err values) and proved equal to the model on all inputs and outcomes (C06_source_tie_kmp_search; int as exact Z, [2]float64 as points); likewise cleanupNewVertices (incl. its panic), asPointOrLine, ensureCorrectWindingOrder (gen/SnapSmallGen.v, C06_source_tie_small; windingOrderIsCorrect and mapslicehelp.ReverseClone stay modelled); time/memory/stack are runtime behaviour the model cannot exhibit. Known findings F11 (level > 32) and F13 attributed by mechanism.",
   tech=TECH + " (tie H incl. exhaustive chains through code and model); harness watchdog for runtime behaviour", ref="DESIGN.md 6 C06"),
  "C07": dict(
   text="Full at model level: the model is a function; results do not depend on the order or multiplicity in which levels are processed; reversing any subset of rings of non-zero area leaves the result unchanged (xprod (rev r) = - xprod r; the hot set enters only through membership); the reverse flag reverses exactly the rings of the polygon part and nothing else. Harness: repeated runs, permuted/duplicated id lists, reversed rings, toggled flag, bit-for-bit on the implementation, incl. tile matrix sets in tiny units.",
